@@ -42,6 +42,7 @@ def signature(plan, rec):
 PLANS = {}
 
 PLANS["C02"] = {
+    "require_ops": ['headers', 'rowitems', 'sep', 'appendrow', 'newrow', 'rowadd', 'addrow'],
     "facets": "grid",
     "own": ["grid", "drows"],
     "mc": [{
@@ -63,6 +64,7 @@ PLANS["C02"] = {
 }
 
 PLANS["C18"] = {
+    "require_ops": ['measure'],
     "facets": "none",
     "own": ["res.metrics"],
     "mc": [{
@@ -80,6 +82,7 @@ PLANS["C18"] = {
 }
 
 PLANS["C01"] = {
+    "require_ops": ['rowitems', 'mutate', 'update', 'headers'],
     "facets": "text",
     "own": ["text", "out.csv", "out.html", "out.errtext"],
     "mc": [{
@@ -99,6 +102,7 @@ PLANS["C01"] = {
 }
 
 PLANS["C11"] = {
+    "require_ops": ['rowerr', 'tblerr', 'ecadd', 'ecaddlist', 'regcb', 'addrow', 'rowadd', 'rendercbs', 'sep'],
     "facets": "errs",
     "mc": [
         {"module": "MCErrors",
@@ -126,6 +130,7 @@ class Raw(str):
 
 
 PLANS["C12"] = {
+    "require_ops": ['setprop', 'copycell', 'takecol', 'rowaddcell', 'rowitems'],
     "facets": "props",
     "own": ["props", "res.setprop"],
     "mc": [{
@@ -154,6 +159,7 @@ def _cbmc(shape, q, t, times=ALLTIMES, targets=ALLTARGETS, passes=2):
 
 
 PLANS["C13"] = {
+    "require_ops": ['regcb', 'rendercbs', 'rowadd', 'addrow', 'rowitems', 'headers', 'rowaddcell'],
     "facets": "props",
     "own": ["props", "res.cblog", "res.regerr"],
     "mc": [_cbmc("empty", 2, 2), _cbmc("hdr", 1, 2), _cbmc("one", 2, 2), _cbmc("built", 1, 2), _cbmc("full", 1, 2),
@@ -178,6 +184,7 @@ def _textmc(cells, rows, cols, aligns, decors, hdr):
 
 
 PLANS["C03"] = {
+    "require_ops": ['render', 'decor', 'sep', 'headers'],
     "facets": "none",
     "own": ["out.text", "out.errtext"],
     "mc": [{
@@ -196,6 +203,7 @@ PLANS["C03"] = {
 }
 
 PLANS["C04"] = {
+    "require_ops": ['render', 'setprop'],
     "facets": "none",
     "own": ["out.text", "out.errtext"],
     "mc": [{
@@ -214,6 +222,7 @@ PLANS["C04"] = {
 
 
 PLANS["C05"] = {
+    "require_ops": ['render'],
     "facets": "none",
     "own": ["out.csv", "out.errtext"],
     "mc": [{
@@ -232,6 +241,7 @@ PLANS["C05"] = {
 }
 
 PLANS["C06"] = {
+    "require_ops": ['render', 'htmlopts'],
     "facets": "none",
     "own": ["out.html", "out.errtext"],
     "mc": [{
@@ -249,6 +259,7 @@ PLANS["C06"] = {
 }
 
 PLANS["C07"] = {
+    "require_ops": ['render', 'setprop', 'sep'],
     "facets": "none",
     "own": ["out.json", "out.errtext"],
     "mc": [
@@ -271,6 +282,7 @@ PLANS["C07"] = {
 }
 
 PLANS["C08"] = {
+    "require_ops": ['render', 'setprop'],
     "facets": "none",
     "own": ["out.md", "out.errtext"],
     "mc": [
@@ -294,6 +306,7 @@ PLANS["C08"] = {
 
 
 PLANS["C09"] = {
+    "require_ops": ['rowadd', 'addrow', 'sep', 'headers'],
     "facets": "none",
     "own": ["out.all"],
     "mc": [
@@ -330,6 +343,7 @@ def _wmc(content, creators, kinds, wraps, renders, targets=ALLFMT):
 
 
 PLANS["C10"] = {
+    "require_ops": ['wrap', 'render', 'newtable'],
     "facets": "same",
     "own": ["res.same", "out.text", "out.csv", "out.html", "out.json", "out.md", "out.errtext", "res.dec"],
     "mc": [
@@ -351,6 +365,7 @@ PLANS["C10"] = {
 }
 
 PLANS["C14"] = {
+    "require_ops": ['wrap', 'render'],
     "facets": "rep,grid,text,props,errs",
     "own": ["res.rep", "grid", "drows", "text", "props", "errs"],
     "mc": [
@@ -380,6 +395,7 @@ def _fmc(fmt, cells, decors='{}', html='{}', rows=2):
 
 
 PLANS["C15"] = {
+    "require_ops": ['render'],
     "facets": "none",
     "own": ["res.faults"],
     "level": "fault_enumeration",
@@ -395,6 +411,7 @@ PLANS["C15"] = {
 
 
 PLANS["C17"] = {
+    "require_ops": ['decor', 'regdecor', 'render'],
     "facets": "none",
     "own": ["res.decor", "out.text", "out.errtext", "res.dec"],
     "phases": [phases.registry_phase],
@@ -419,6 +436,7 @@ PLANS["C16"] = {
 }
 
 PLANS["C19"] = {
+    "require_ops": ['autonew', 'liststyles', 'regdecor'],
     "facets": "none",
     "own": ["res.auto", "res.styles"],
     "mc": [{"module": "MCAuto",
